@@ -20,7 +20,20 @@ X0 = {"x1": 0.02, "x2": 0.03}
 BULK = {"auto": None, "n1": 1.0e27, "n2": 3.0e26}
 SHAPE = {"sphere": ("sphere", 1), "needle2": ("needle", 2.0), "plate3": ("plate", 3.0)}
 GBS = ("grain boundaries", "grain edges", "grain corners")
-FIELDS = {"vmA": VMA, "vmB": VMB, "gamma": GAM, "site": {s: s for s in SITES}, "gbe": GBE, "grain": GRAIN, "disl": DISL, "x0": X0, "bulk": BULK, "shape": SHAPE}
+FIELDS = {"vmA": VMA, "vmB": VMB, "gamma": GAM, "site": {s: s for s in SITES}, "gbe": GBE, "grain": GRAIN, "disl": DISL, "x0": X0, "bulk": BULK, "shape": SHAPE,
+          "vmB2": VMB, "gamma2": GAM, "site2": {s: s for s in SITES}, "shape2": SHAPE}
+PH2 = ("vmB2", "gamma2", "site2", "shape2")
+NAMES = ("beta", "gamma")
+
+
+def ph(i, k):
+    """the inputs of phase k (1 or 2) as a record with the field names of the first phase"""
+    return {"vmB": i["vmB"], "gamma": i["gamma"], "site": i["site"], "shape": i["shape"]} if k == 1 else \
+           {"vmB": i["vmB2"], "gamma": i["gamma2"], "site": i["site2"], "shape": i["shape2"]}
+
+
+def all_admissible(i):
+    return admissible(i["site"], i["shape"]) and (i["np"] == 1 or admissible(i["site2"], i["shape2"]))
 RTOL = 1e-9
 
 
@@ -29,22 +42,30 @@ def admissible(site, shape):
 
 
 def cfg_of(i):
-    return dict(phases=[dict(name="beta", gamma=GAM[i["gamma"]], site=i["site"], VmB=VMB[i["vmB"]], shape=SHAPE[i["shape"]])], VmA=VMA[i["vmA"]],
+    phases = [dict(name=NAMES[k - 1], gamma=GAM[ph(i, k)["gamma"]], site=ph(i, k)["site"], VmB=VMB[ph(i, k)["vmB"]], shape=SHAPE[ph(i, k)["shape"]]) for k in range(1, i["np"] + 1)]
+    return dict(phases=phases, VmA=VMA[i["vmA"]],
                 gb=GBE[i["gbe"]], grainSize=GRAIN[i["grain"]], disl=DISL[i["disl"]], bulkN0=BULK[i["bulk"]], x0=X0[i["x0"]], D=1e-16, calls=[(1.0, 0.5)])
 
 
 def read(m):
-    n = m.precipitateParameters[0].nucleation
-    x = [np.zeros(m.PBM[0].bins)]
-    return {"pool": float(m._calcNucleationSites(0, x, 0)), "factors": (float(n.areaFactor), float(n.volumeFactor)),
-            "gibbs": float(np.atleast_1d(m.particleGibbs(2e-9, "beta"))[0]), "x": float(np.atleast_1d(m.pData.composition[0])[0])}
+    x = [np.zeros(b.bins) for b in m.PBM]
+    out = {"x": float(np.atleast_1d(m.pData.composition[0])[0])}
+    for k in range(len(m.phases)):
+        n = m.precipitateParameters[k].nucleation
+        sfx = "" if k == 0 else "2"
+        out["pool" + sfx] = float(m._calcNucleationSites(0, x, k))
+        out["factors" + sfx] = (float(n.areaFactor), float(n.volumeFactor))
+        out["gibbs" + sfx] = float(np.atleast_1d(m.particleGibbs(2e-9, NAMES[k]))[0])
+    return out
 
 
 _FRESH = {}
 
 
 def fresh(i):
-    """what a freshly built model (canonical setter order) derives for the inputs i"""
+    """what a freshly built ONE-phase model (canonical setter order) derives for the global inputs and first-phase inputs of i
+    (the specification's dependency sets: what is derived for a phase depends on the global inputs and on its own inputs only)"""
+    i = dict(i, np=1, vmB2=i["vmB"], gamma2=i["gamma"], site2="bulk", shape2="sphere")
     key = tuple(sorted(i.items()))
     if key not in _FRESH:
         m, th, obs = K.build(cfg_of(i))
@@ -72,34 +93,58 @@ def close(a, b):
     return bool(a.shape == b.shape and np.all(np.abs(a - b) <= RTOL * np.maximum(np.abs(a), np.abs(b))))
 
 
+def as_first(i, k):
+    """the record whose first phase carries the inputs of phase k of i"""
+    return dict(i, **ph(i, k))
+
+
 def stamp(obs, cur, seen):
-    """recognise what every observed datum was computed from: the inputs in force (first) or inputs seen earlier in the history"""
+    """recognise what every observed datum was computed from: the inputs in force (first) or inputs seen earlier in the history
+    (for the data of a phase also: the OTHER phase's inputs, now or earlier)"""
     out = {}
-    cands = [cur] + [s for s in reversed(seen) if s != cur]
-    for name, mk in (("pool", pool_stamp), ("gibbs", lambda i: [i["gamma"], i["vmB"], i["shape"]]), ("x", lambda i: [i["x0"]])):
-        out[name] = ["unknown", repr(obs[name])]
+    for k in (1, 2):
+        sfx = "" if k == 1 else "2"
+        if k > cur["np"]:
+            out["pool2"] = out["factors2"] = out["gibbs2"] = ["absent"]
+            continue
+        other = 3 - k
+        cands = [as_first(cur, k)] + [as_first(s_, k) for s_ in reversed(seen)]
+        if cur["np"] == 2:
+            cands += [as_first(cur, other)] + [as_first(s_, other) for s_ in reversed(seen)]
+        for name, mk in (("pool", pool_stamp), ("gibbs", lambda i: [i["gamma"], i["vmB"], i["shape"]])):
+            out[name + sfx] = ["unknown", repr(obs[name + sfx])]
+            for c in cands:
+                if admissible(c["site"], c["shape"]) and close(obs[name + sfx], fresh(c)[name]):
+                    out[name + sfx] = mk(c)
+                    break
+        out["factors" + sfx] = ["unknown", repr(obs["factors" + sfx])]
+        gbes = [cur["gbe"]] + [g for g in GBE if g != cur["gbe"]]
+        done = False
         for c in cands:
-            if close(obs[name], fresh(c)[name]):
-                out[name] = mk(c)
+            for g in gbes:
+                c2 = dict(c, gbe=g)
+                if not admissible(c2["site"], c2["shape"]):
+                    continue
+                if close(obs["factors" + sfx], fresh(c2)["factors"]):
+                    out["factors" + sfx] = factors_stamp(c2, g)
+                    done = True
+                    break
+            if done:
                 break
-    out["factors"] = ["unknown", repr(obs["factors"])]
-    gbes = [cur["gbe"]] + [g for g in GBE if g != cur["gbe"]]
-    done = False
-    for c in cands:
-        for g in gbes:
-            c2 = dict(c, gbe=g)
-            if not admissible(c2["site"], c2["shape"]):
-                continue
-            if close(obs["factors"], fresh(c2)["factors"]):
-                out["factors"] = factors_stamp(c2, g)
-                done = True
-                break
-        if done:
+    out["x"] = ["unknown", repr(obs["x"])]
+    for c in [cur] + list(reversed(seen)):
+        if close(obs["x"], X0[c["x0"]]):
+            out["x"] = [c["x0"]]
             break
     return out
 
 
 def apply_set(m, field, arg, cur, how=0):
+    name = "beta"
+    if field in PH2:
+        field, name = field[:-1], "gamma"
+    elif how % 5 == 4 and field in ("vmB", "gamma", "site", "shape"):
+        name = None                   # documented: no phase name = the first precipitate phase
     if field == "vmA":
         v = VMA[arg]
         if how % 3 == 0: m.setVolumeAlpha(v, VolumeParameter.MOLAR_VOLUME, 4)
@@ -107,16 +152,16 @@ def apply_set(m, field, arg, cur, how=0):
         else: m.setVolumeAlpha((4 * v / AVOGADROS_NUMBER) ** (1.0 / 3.0), VolumeParameter.LATTICE_PARAMETER, 4)
     elif field == "vmB":
         v = VMB[arg]
-        if how % 2 == 0: m.setVolumeBeta(v, VolumeParameter.MOLAR_VOLUME, 4, "beta")
-        else: m.setVolumeBeta(4 * v / AVOGADROS_NUMBER, VolumeParameter.ATOMIC_VOLUME, 4, "beta")
-    elif field == "gamma": m.setInterfacialEnergy(GAM[arg], "beta")
-    elif field == "site": m.setNucleationSite(arg, "beta")
+        if how % 2 == 0: m.setVolumeBeta(v, VolumeParameter.MOLAR_VOLUME, 4, name)
+        else: m.setVolumeBeta(4 * v / AVOGADROS_NUMBER, VolumeParameter.ATOMIC_VOLUME, 4, name)
+    elif field == "gamma": m.setInterfacialEnergy(GAM[arg], name)
+    elif field == "site": m.setNucleationSite(arg, name)
     elif field == "gbe": m.setGrainBoundaryEnergy(GBE[arg])
     elif field == "grain": m.setNucleationDensity(grainSize=GRAIN[arg], dislocationDensity=DISL[cur["disl"]], bulkN0=BULK[cur["bulk"]])
     elif field == "disl": m.setNucleationDensity(grainSize=GRAIN[cur["grain"]], dislocationDensity=DISL[arg], bulkN0=BULK[cur["bulk"]])
     elif field == "bulk": m.setNucleationDensity(grainSize=GRAIN[cur["grain"]], dislocationDensity=DISL[cur["disl"]], bulkN0=BULK[arg])
     elif field == "x0": m.setInitialComposition(X0[arg])
-    elif field == "shape": m.setPrecipitateShape(SHAPE[arg][0], "beta", SHAPE[arg][1])
+    elif field == "shape": m.setPrecipitateShape(SHAPE[arg][0], name, SHAPE[arg][1])
 
 
 def run_history(init, ops, how=0, first_setup=True):
@@ -133,7 +178,7 @@ def run_history(init, ops, how=0, first_setup=True):
         for k, op in enumerate(ops):
             if op[0] == "set":
                 nxt = dict(cur, **{op[1]: op[2]})
-                if not admissible(nxt["site"], nxt["shape"]) or (op[1] == "bulk" and op[2] == "auto"):
+                if not all_admissible(nxt) or (op[1] == "bulk" and op[2] == "auto") or (op[1] in PH2 and cur["np"] == 1):
                     continue          # validate() refuses the combination / a user-defined bulk density cannot be withdrawn: not part of the histories
                 apply_set(m, op[1], op[2], cur, how + k)
                 cur = nxt
@@ -151,28 +196,36 @@ def run_history(init, ops, how=0, first_setup=True):
 
 def gen_histories(rng, tier):
     setters = [("set", f, a) for f, tab in FIELDS.items() for a in tab if not (f == "bulk" and a == "auto")]
-    inits = []
-    for site in SITES:
-        inits.append(dict(vmA="a1", vmB="b1", gamma="g1", site=site, gbe="e1", grain="d1", disl="r1", x0="x1", bulk="auto", shape="sphere"))
-    inits.append(dict(vmA="a2", vmB="b2", gamma="g2", site="dislocations", gbe="e2", grain="d2", disl="r2", x0="x2", bulk="n1", shape="needle2"))
+    one = [s_ for s_ in setters if s_[1] not in PH2]
+    base = dict(vmA="a1", vmB="b1", gamma="g1", site="bulk", gbe="e1", grain="d1", disl="r1", x0="x1", bulk="auto", shape="sphere",
+                vmB2="b1", gamma2="g1", site2="bulk", shape2="sphere", np=1)
+    inits = [dict(base, site=site) for site in SITES]
+    inits.append(dict(base, vmA="a2", vmB="b2", gamma="g2", site="dislocations", gbe="e2", grain="d2", disl="r2", x0="x2", bulk="n1", shape="needle2"))
+    two = [dict(base, np=2, site="grain boundaries", site2="dislocations", vmB2="b2", gamma2="g2", shape2="plate3"),
+           dict(base, np=2, site="bulk", site2="grain edges", shape="needle2"),
+           dict(base, np=2, site="grain corners", site2="grain boundaries", gamma2="g2", gbe="e2")]
     hist = []
     # one setter then setup, from every starting site type; two setters then setup from two of them
     for i0 in inits:
-        for s in setters:
+        for s in one:
             hist.append((i0, [s, ("setup",)], True))
     for i0 in (inits[2], inits[1]):
-        for s1, s2 in itertools.product(setters, repeat=2):
+        for s1, s2 in itertools.product(one, repeat=2):
             if s1[1] != s2[1] and (tier != "quick" or rng.random() < 0.25):
                 hist.append((i0, [s1, s2, ("setup",)], True))
-    # setters before the very first setup
-    for i0 in inits[:3]:
+    # two phases: every setter (of either phase, or global) then setup
+    for i0 in two:
         for s in setters:
+            hist.append((i0, [s, ("setup",)], True))
+    # setters before the very first setup
+    for i0 in inits[:3] + two[:1]:
+        for s in (setters if i0["np"] == 2 else one):
             hist.append((i0, [s, ("setup",)], False))
     # longer seeded histories with several setups
     for _ in range(150 if tier == "quick" else 1500):
-        i0 = rng.choice(inits)
+        i0 = rng.choice(inits + two + two)
         ops = []
         for _k in range(rng.randint(3, 8)):
-            ops.append(rng.choice(setters) if rng.random() < 0.7 else ("setup",))
+            ops.append(rng.choice(setters if i0["np"] == 2 else one) if rng.random() < 0.7 else ("setup",))
         hist.append((i0, ops + [("setup",)], rng.random() < 0.7))
     return hist
